@@ -49,10 +49,11 @@ fn main() {
         Property {
             id: "C13",
             level: "exploration",
-            rule: "Every decoder of C12 plus WscFile::from_bytes+validate_wsc+every WarpView accessor and recover_wal_segment_bytes, fed (a) a deterministic adversarial template grid: declared lengths 2^16..2^64-1 in every CBOR major type and in every aligned 4/8-byte window of valid encodings (LE and BE), nesting depth 50..10^6 through arrays, map values, map keys, tags and indefinite markers, every truncation cut of valid encodings, 1 MiB tails; (b) proptest-seeded byte mutants of valid encodings; (c) random bytes up to 4 KiB. Each input runs in an isolated child process (counting global allocator, 64 MiB decode-thread stack, RLIMIT_AS 6 GiB). Oracle: result is a value or typed error; no panic (caught in child, reported with message), no process death (SIGSEGV = stack overflow, SIGABRT = abort/alloc failure), no result-less 20 s, and peak live allocation during the call <= 1 MiB + 1024 x input_len (+ the codec's documented fixed cap: eintlog MAX_FRAME_LEN). Non-trivial = accepted input or structure-aware derivative of a valid encoding; distinct by (codec, bytes).",
+            rule: "Every decoder of C12 plus WscFile::from_bytes+validate_wsc+every WarpView accessor, recover_wal_segment_bytes and seven warp-wasm host boundary entry points (dispatch_intent_cbor, dispatch_control_intent_trusted_cbor, observe_cbor against a freshly installed engine kernel; the bodies of observe_optic, dispatch_optic_intent, observe_neighborhood_site/core, compare/plan/settle_strand against a fresh WarpKernel), fed (a) a deterministic adversarial template grid: declared lengths 2^16..2^64-1 in every CBOR major type and in every aligned 4/8-byte window of valid encodings (LE and BE), nested heads that each declare an admissible count (255..100000 at depth 2..256: arrays, maps through keys, maps through values), nesting depth 50..10^6 through arrays, map values, map keys, tags and indefinite markers, every truncation cut of valid encodings, 1 MiB tails; (b) proptest-seeded byte mutants of valid encodings; (c) random bytes up to 4 KiB. Each input runs in an isolated child process (counting global allocator, 64 MiB decode-thread stack, RLIMIT_AS 6 GiB). Oracle: result is a value or typed error; no panic (caught in child, reported with message), no process death (SIGSEGV = stack overflow, SIGABRT = abort/alloc failure), no result-less 20 s, and peak live allocation during the call <= 1 MiB + 1024 x input_len (+ the codec's documented fixed cap: eintlog MAX_FRAME_LEN). Non-trivial = accepted input or structure-aware derivative of a valid encoding; distinct by (codec, bytes).",
             assumptions: &[
                 "1024x proportionality is deliberately generous (a 1-byte CBOR item legitimately becomes a ~32-byte Value node, then a serde_value node); a pre-allocation driven by a declared length exceeds it",
                 "the child isolates crashes; a crash is attributed to the last started input",
+                "documented fixed caps: eintlog MAX_FRAME_LEN; Edict MAX_CANONICAL_DECODE_NODES_V1 x 64 bytes; 32 MiB for host boundary entry points (kernel state, not only decoding); the host kernel is re-created for every input",
             ],
             subs: c13::subs,
             max_shards: 16,
